@@ -1,6 +1,7 @@
 import BaoProofs.Lemmas.PlanPreRefine
 import BaoProofs.Lemmas.PlanPreShape
 import BaoProofs.Lemmas.PlanPreCover
+import BaoProofs.Lemmas.PlanPreExact
 
 /-!
 # Facts about the whole recursive plan `plan t ml q` (C15, pre-order half)
